@@ -6,6 +6,7 @@ package convtab
 import (
 	"golang.org/x/exp/constraints"
 	"pipelined.dev/signal"
+	"strconv"
 	"verif/harness/kit"
 )
 
@@ -99,6 +100,9 @@ func codeToAmp[T signal.SignalTypes](signed bool, half uint64, x T) int64 {
 // buffer's header has the history "produced by a conversion".
 var primers = map[string]any{}
 
+// sharedDst: destination buffers reused across instantiations (fix 8), by destination type and shape.
+var sharedDst = map[string]any{}
+
 func zeroLike[T signal.SignalTypes](b *signal.Buffer[T]) *signal.Buffer[int8] {
 	return signal.Alloc[int8](signal.Allocator{Channels: b.Channels(), Length: b.Length(), Capacity: b.Length()})
 }
@@ -166,6 +170,17 @@ func mk[S, D signal.SignalTypes](fn, s, d string, conv func(*signal.Buffer[S], *
 					la := a
 					la.Length, la.Capacity = fr+2, fr+2
 					dbuf = signal.Alloc[D](la)
+				}
+				if fix == 8 {
+					// the destination is one buffer object shared by every instantiation with this
+					// destination type and shape: it has been the destination of conversions from
+					// other source formats before (cases run one after the other, never concurrently)
+					key := d + "/" + strconv.Itoa(channels) + "/" + strconv.Itoa(fr)
+					if sb, ok := sharedDst[key].(*signal.Buffer[D]); ok {
+						dbuf = sb
+					} else {
+						sharedDst[key] = dbuf
+					}
 				}
 				if fix == 3 {
 					// both buffers come out of a pool after a round trip through it
